@@ -104,14 +104,17 @@ const numericHeader = `//verif:pkg interpreter
 //verif:dump sema
 //verif:dump common
 //verif:dump values
+//verif:dump fixedpoint
 package PKGNAME
 
 import (
 	"math/big"
 
 	"github.com/onflow/cadence/values"
+	fix "github.com/onflow/fixed-point"
 )
 
+var _ = fix.Fix128{}
 var _ = values.IntValue{}
 var _ = big.NewInt
 `
